@@ -105,7 +105,7 @@ def verb(fn):
 def check_subquery(new_tbl, child_tbl, *, is_right: bool = False):
     if (reason := child_tbl._cache.requires_subquery(new_tbl._ast)) is not None:
         # Search among descendants of the current node for an `Alias` that can be used
-        # to create a subquery. If we hit a `Join` or `SubqueryMarker`, we stop.
+        # to create a subquery. If we hit a `Join`, `Union` or `SubqueryMarker`, we stop.
         chain: list[verbs.Verb] = [new_tbl._ast]
         for nd in child_tbl._ast.iter_subtree_preorder():
             if isinstance(nd, verbs.Alias):
@@ -137,7 +137,7 @@ def check_subquery(new_tbl, child_tbl, *, is_right: bool = False):
                 modified_new_tbl._ast = new_chain[0]
                 return (modified_new_tbl, test_tbl)
 
-            if isinstance(nd, verbs.SubqueryMarker | verbs.Join):
+            if isinstance(nd, verbs.SubqueryMarker | verbs.Join | verbs.Union):
                 break
             chain.append(nd)
 
